@@ -223,8 +223,11 @@ namespace Simple
 
 def keyOfReq (r : Req) : Key := .simple r.do_ r.qtype r.qclass r.name.toLower
 
-/-- `set` keys the entry by the *response*: its OPT's DO bit and its echoed question. -/
-def keyOfResp (r : Req) (m : Msg) : Key := .simple (msgDO m) r.qtype r.qclass r.name.toLower
+/-- Before the round-3 fix `set` computed the key from the *response*: its OPT's DO bit and its
+question section — type and name are checked against the request by the forward handler, the class is
+not; `rc` is the class in the response's question section.  Kept for the counter-example and for
+replaying it on the old tree (`cfg k`). -/
+def keyOfResp (r : Req) (m : Msg) (rc : Nat) : Key := .simple (msgDO m) r.qtype rc r.name.toLower
 
 /-- `fromCacheItem` given the TTL function (`simpleTTL` on the repaired tree). -/
 def hitWith (f : Nat → Nat → Nat) (m : Msg) (age : Nat) (r : Req) : Msg :=
@@ -236,6 +239,19 @@ def hitWith (f : Nat → Nat → Nat) (m : Msg) (age : Nat) (r : Req) : Msg :=
 
 def hit (m : Msg) (age : Nat) (r : Req) : Msg := hitWith simpleTTL m age r
 
+/-- The middleware with the key of the stored entry as a parameter: `kf r stored`. -/
+def stepKeyed (kf : Req → Msg → Key) (f : Nat → Nat → Nat) (cfg : Cfg) (s : Store) (now : Nat) (r : Req) (a : Msg) : Out :=
+  match s.live now (keyOfReq r) with
+  | some e => { store := s, resp := hitWith f e.msg (now - e.at_) r, hit := true }
+  | none =>
+    match (prepStore cfg r.qtype a).2 with
+    | none => { store := s, resp := (prepStore cfg r.qtype a).1, hit := false }
+    | some life =>
+      { store := s.put (kf r (prepStore cfg r.qtype a).1)
+          { msg := (prepStore cfg r.qtype a).1, at_ := now, expAt := now + life },
+        resp := (prepStore cfg r.qtype a).1, hit := false }
+
+/-- The code as it is: `get` and `set` both compute the key from the request. -/
 def stepWith (f : Nat → Nat → Nat) (cfg : Cfg) (s : Store) (now : Nat) (r : Req) (a : Msg) : Out :=
   match s.live now (keyOfReq r) with
   | some e => { store := s, resp := hitWith f e.msg (now - e.at_) r, hit := true }
@@ -243,9 +259,13 @@ def stepWith (f : Nat → Nat → Nat) (cfg : Cfg) (s : Store) (now : Nat) (r : 
     match (prepStore cfg r.qtype a).2 with
     | none => { store := s, resp := (prepStore cfg r.qtype a).1, hit := false }
     | some life =>
-      { store := s.put (keyOfResp r (prepStore cfg r.qtype a).1)
+      { store := s.put (keyOfReq r)
           { msg := (prepStore cfg r.qtype a).1, at_ := now, expAt := now + life },
         resp := (prepStore cfg r.qtype a).1, hit := false }
+
+/-- The code before the round-3 fix: the entry went under the key of the response; `rc` = class echoed. -/
+def stepOldKey (cfg : Cfg) (s : Store) (now : Nat) (r : Req) (a : Msg) (rc : Nat) : Out :=
+  stepKeyed (fun r m => keyOfResp r m rc) simpleTTL cfg s now r a
 
 /-- One request through the middleware; `a` is what the next handler answers for `r`. -/
 def step (cfg : Cfg) (s : Store) (now : Nat) (r : Req) (a : Msg) : Out := stepWith simpleTTL cfg s now r a
